@@ -452,7 +452,6 @@ func checkFailClosed(run *runner, idx int64, cc *checkCase, cfg *Cfg, strict boo
 	*verdict = "violation"
 }
 
-
 type c02Transport struct {
 	name string
 	do   func(env *Env, read http.Handler, g *grpcClients, q *Tup, depth int) string
